@@ -2,7 +2,10 @@
    [W s], the world an observer reconstructs from the events emitted so far, agrees with the concrete
    state [s] on everything the monitors speak about ([link]); every [exec] is a sequence of atomic
    steps ([astep], [exec_steps]) each of which keeps the link ([astep_link]).  A monitor whose
-   acceptance is kept by every atomic step accepts every session trace ([session_acc]). *)
+   acceptance is kept by every atomic step accepts every session trace ([session_acc]).
+   The same induction ([exec_spec]) carries the control-flow specification [Post] (a call that comes
+   back has not grown [psi] = open levels + pending stop request), which is what makes the return of
+   execute_new_loop an honest event too ([A_newloopret]). *)
 From SL Require Import Tac.
 From Coq Require Import Permutation.
 From RecordUpdate Require Import RecordUpdate.
@@ -332,13 +335,14 @@ Proof. unfold world_of. rewrite fold_left_app. reflexivity. Qed.
 (* the part of the world the link speaks about *)
 Definition wcore_eq (w w' : world) : Prop :=
   w_sig w = w_sig w' /\ w_hand w = w_hand w' /\ w_levels w = w_levels w' /\ w_active w = w_active w' /\
-  w_src w = w_src w' /\ w_pend w = w_pend w' /\ w_fq w = w_fq w' /\ w_quit w = w_quit w'.
+  w_src w = w_src w' /\ w_pend w = w_pend w' /\ w_fq w = w_fq w' /\ w_quit w = w_quit w' /\
+  w_runloop w = w_runloop w'.
 
 (* events that leave that part alone *)
 Definition passive (e : event) : bool :=
   match e with
   | ESigNew _ _ _ _ | ERegHandler _ _ _ | ERegSource _ _ | ESetQuitCb _ | EEnq _ _ | EDispatch _ _ _
-  | ENewLoopEnter _ | EClosePop _ | EForceQuit | ERunEnter => false
+  | ENewLoopEnter _ | ENewLoopReturn _ | EClosePop _ | EForceQuit | ERunEnter => false
   | _ => true
   end.
 
@@ -352,13 +356,40 @@ Proof.
   - repeat split.
   - destruct how as [[| |]|]; repeat split.
   - repeat split.
-  - destruct (w_fq w); repeat split.
   - destruct wait; repeat split.
   - destruct wait; repeat split.
   - repeat split.
   - repeat split.
   - repeat split.
   - repeat split.
+Qed.
+
+(* events that leave the stop flag of the world alone *)
+Definition keeps_runloop (e : event) : bool :=
+  match e with ENewLoopReturn _ | EClosePop _ | EForceQuit | ERunEnter => false | _ => true end.
+Lemma w_runloop_step w e : keeps_runloop e = true -> w_runloop (world_step w e) = w_runloop w.
+Proof.
+  destruct e; cbn [keeps_runloop]; intros H; try discriminate H; cbn [world_step]; try reflexivity.
+  - destruct (w_expect_exc w =? 1)%nat; reflexivity.
+  - destruct (w_expect_exc w =? 2)%nat; reflexivity.
+  - destruct (w_expect_exc w =? 2)%nat; reflexivity.
+  - destruct how as [[| |]|]; reflexivity.
+  - destruct wait; reflexivity.
+  - destruct wait; reflexivity.
+Qed.
+
+Lemma w_stillborn_step w e : incl (w_stillborn w) (w_stillborn (world_step w e)).
+Proof.
+  destruct e; cbn [world_step]; try apply incl_refl.
+  - destruct (w_expect_exc w =? 1)%nat; apply incl_refl.
+  - destruct (w_expect_exc w =? 2)%nat; apply incl_refl.
+  - destruct (w_expect_exc w =? 2)%nat; apply incl_refl.
+  - destruct how as [[| |]|]; apply incl_refl.
+  - cbn. destruct (w_runloop w); [apply incl_refl|apply incl_tl, incl_refl].
+  - destruct (w_fq w); apply incl_refl.
+  - cbn. destruct (last_opt (removelast (w_levels w))); apply incl_refl.
+  - destruct wait; apply incl_refl.
+  - destruct wait; apply incl_refl.
 Qed.
 
 (* ---- world_step on the events that matter, field by field ---- *)
@@ -410,7 +441,7 @@ Definition sid_fresh_in (qs : list equeue) (sid : nat) : Prop :=
 
 (* the link on the components of the state it speaks about *)
 Record linkc (w : world) (qs : list equeue) (lv : list nat) (ac : nat) (hs : list (nat * list (nat * nat)))
-       (fq : bool) (qc : option nat) (ns : nat) : Prop := {
+       (fq : bool) (qc : option nat) (ns : nat) (rl : bool) : Prop := {
   lk_levels : w_levels w = lv;
   lk_active : w_active w = ac;
   lk_fq : w_fq w = fq;
@@ -425,12 +456,17 @@ Record linkc (w : world) (qs : list equeue) (lv : list nat) (ac : nat) (hs : lis
   lk_sig_lt : forall sid v, lookup sid (w_sig w) = Some v -> sid < ns;
   lk_sid_uniq : forall q1 q2 e1 e2,
       In e1 (eq_entries (gq qs q1)) -> In e2 (eq_entries (gq qs q2)) ->
-      sg_id (esig e1) = sg_id (esig e2) -> q1 = q2 /\ e1 = e2 }.
+      sg_id (esig e1) = sg_id (esig e2) -> q1 = q2 /\ e1 = e2;
+  (* the stop flag: whenever the loops have been told to stop, the observer knows *)
+  lk_runloop : rl = false -> w_runloop w = false;
+  (* after force_quit no level is open *)
+  lk_fq_levels : fq = true -> lv = [] }.
 
-Lemma linkc_wcore w w' qs lv ac hs fq qc ns : wcore_eq w' w -> linkc w qs lv ac hs fq qc ns -> linkc w' qs lv ac hs fq qc ns.
+Lemma linkc_wcore w w' qs lv ac hs fq qc ns rl :
+  wcore_eq w' w -> linkc w qs lv ac hs fq qc ns rl -> linkc w' qs lv ac hs fq qc ns rl.
 Proof.
-  intros (E1 & E2 & E3 & E4 & E5 & E6 & E7 & E8) L. destruct L. unfold sources, pend, sig_rec in *.
-  split; unfold sources, pend, sig_rec; rewrite ?E1, ?E2, ?E3, ?E4, ?E5, ?E6, ?E7, ?E8; assumption.
+  intros (E1 & E2 & E3 & E4 & E5 & E6 & E7 & E8 & E9) L. destruct L. unfold sources, pend, sig_rec in *.
+  split; unfold sources, pend, sig_rec; rewrite ?E1, ?E2, ?E3, ?E4, ?E5, ?E6, ?E7, ?E8, ?E9; assumption.
 Qed.
 
 Ltac st_simpl := cbn [qstore levels active handlers tickets run_loop force_quit quit_cb next_sig ext trace ust
@@ -456,20 +492,20 @@ Section Link.
   Definition sid_fresh (s : lstate) (sid : nat) : Prop := sid_fresh_in (qstore s) sid.
 
   Definition linkw (w : world) (s : lstate) : Prop :=
-    linkc w (qstore s) (levels s) (active s) (handlers s) (force_quit s) (quit_cb s) (next_sig s).
+    linkc w (qstore s) (levels s) (active s) (handlers s) (force_quit s) (quit_cb s) (next_sig s) (run_loop s).
   Definition link (s : lstate) : Prop := linkw (W s) s.
 
   Definition score_eq (s s' : lstate) : Prop :=
     qstore s = qstore s' /\ levels s = levels s' /\ active s = active s' /\ handlers s = handlers s' /\
-    force_quit s = force_quit s' /\ quit_cb s = quit_cb s' /\ next_sig s = next_sig s'.
+    force_quit s = force_quit s' /\ quit_cb s = quit_cb s' /\ next_sig s = next_sig s' /\ run_loop s = run_loop s'.
 
   Lemma score_refl s : score_eq s s.
   Proof. repeat split. Qed.
 
   Lemma link_irrel s s' : score_eq s s' -> trace s' = trace s -> link s -> link s'.
   Proof.
-    intros (F1 & F2 & F3 & F4 & F5 & F6 & F7) T L. unfold link, linkw in *. rewrite (W_trace _ _ T).
-    rewrite <- F1, <- F2, <- F3, <- F4, <- F5, <- F6, <- F7. exact L.
+    intros (F1 & F2 & F3 & F4 & F5 & F6 & F7 & F8) T L. unfold link, linkw in *. rewrite (W_trace _ _ T).
+    rewrite <- F1, <- F2, <- F3, <- F4, <- F5, <- F6, <- F7, <- F8. exact L.
   Qed.
 
   Lemma link_emit_passive e s : passive e = true -> link s -> link (emit e s).
@@ -488,18 +524,19 @@ Lemma gq_out qs q : length qs <= q -> gq qs q = empty_queue.
 Proof. intros H. unfold gq. apply nth_overflow, H. Qed.
 
 (* ---- a signal is created ---- *)
-Lemma linkc_signew w qs lv ac hs fq qc ns sp :
-  linkc w qs lv ac hs fq qc ns ->
+Lemma linkc_signew w qs lv ac hs fq qc ns rl sp :
+  linkc w qs lv ac hs fq qc ns rl ->
   let w' := world_step w (ESigNew ns (sp_cls sp) (sp_prio sp) (sp_src sp)) in
-  linkc w' qs lv ac hs fq qc (S ns) /\ sig_rec w' (mk_signal ns sp) /\ sid_fresh_in qs ns.
+  linkc w' qs lv ac hs fq qc (S ns) rl /\ sig_rec w' (mk_signal ns sp) /\ sid_fresh_in qs ns.
 Proof.
   intros L w'. destruct (ws_signew w ns (sp_cls sp) (sp_prio sp) (sp_src sp)) as (S1&S2&S3&S4&S5&S6&S7&S8).
   fold w' in S1, S2, S3, S4, S5, S6, S7, S8.
   assert (Hfresh : sid_fresh_in qs ns).
-  { intros q e He E. apply (lk_sig _ _ _ _ _ _ _ _ L) in He. unfold sig_rec in He.
-    apply (lk_sig_lt _ _ _ _ _ _ _ _ L) in He. lia. }
+  { intros q e He E. apply (lk_sig _ _ _ _ _ _ _ _ _ L) in He. unfold sig_rec in He.
+    apply (lk_sig_lt _ _ _ _ _ _ _ _ _ L) in He. lia. }
   split; [|split; [|exact Hfresh]].
-  - destruct L as [K1 K2 K3 K4 K5 K6 K7 K8 K9 K10 K11 K12 K13]. split; unfold sources, pend, sig_rec in *; rewrite ?S1, ?S2, ?S3, ?S4, ?S5, ?S6, ?S7, ?S8; auto.
+  - assert (S9 : w_runloop w' = w_runloop w) by (apply w_runloop_step; reflexivity).
+    destruct L as [K1 K2 K3 K4 K5 K6 K7 K8 K9 K10 K11 K12 K13 K14 K15]. split; unfold sources, pend, sig_rec in *; rewrite ?S1, ?S2, ?S3, ?S4, ?S5, ?S6, ?S7, ?S8, ?S9; auto.
     + intros q e He. cbn [lookup]. destruct (sg_id (esig e) =? ns)%nat eqn:E.
       * apply Nat.eqb_eq in E. exfalso. eapply Hfresh; eauto.
       * eauto.
@@ -510,19 +547,19 @@ Proof.
 Qed.
 
 (* ---- one queue object is replaced ---- *)
-Lemma linkc_replace w w' qs lv ac hs fq qc ns q v x :
-  linkc w qs lv ac hs fq qc ns -> q < length qs ->
+Lemma linkc_replace w w' qs lv ac hs fq qc ns rl q v x :
+  linkc w qs lv ac hs fq qc ns rl -> q < length qs ->
   w_sig w' = w_sig w -> w_hand w' = w_hand w -> w_levels w' = w_levels w -> w_active w' = w_active w ->
-  w_fq w' = w_fq w -> w_quit w' = w_quit w ->
+  w_fq w' = w_fq w -> w_quit w' = w_quit w -> w_runloop w' = w_runloop w ->
   (forall q', sources w' q' = if (q' =? q)%nat then eq_sources v else sources w q') ->
   (forall q', pend w' q' = if (q' =? q)%nat then abs v else pend w q') ->
   qwf v ->
   (forall e, In e (eq_entries v) -> In e (eq_entries (gq qs q)) \/
              (e = x /\ sig_rec w (esig x) /\ sid_fresh_in qs (sg_id (esig x)))) ->
-  linkc w' (set_nth qs q v) lv ac hs fq qc ns.
+  linkc w' (set_nth qs q v) lv ac hs fq qc ns rl.
 Proof.
-  intros L Hq S1 S2 S3 S4 S7 S8 Hsrc Hpend Hwf Hin. destruct L as [K1 K2 K3 K4 K5 K6 K7 K8 K9 K10 K11 K12 K13].
-  split; rewrite ?set_nth_length; unfold sig_rec in *; rewrite ?S1, ?S2, ?S3, ?S4, ?S7, ?S8; auto.
+  intros L Hq S1 S2 S3 S4 S7 S8 S9 Hsrc Hpend Hwf Hin. destruct L as [K1 K2 K3 K4 K5 K6 K7 K8 K9 K10 K11 K12 K13 K14 K15].
+  split; rewrite ?set_nth_length; unfold sig_rec in *; rewrite ?S1, ?S2, ?S3, ?S4, ?S7, ?S8, ?S9; auto.
   - intros q'. rewrite Hsrc. rewrite gq_set_nth by exact Hq. destruct (q' =? q)%nat; auto.
   - intros q'. rewrite Hpend. rewrite gq_set_nth by exact Hq. destruct (q' =? q)%nat; auto.
   - intros q'. rewrite gq_set_nth by exact Hq. destruct (q' =? q)%nat; auto.
@@ -552,93 +589,94 @@ Proof. unfold sig_rec, sig_cls. intros ->. reflexivity. Qed.
 Lemma sig_rec_src w sg : sig_rec w sg -> sig_src w (sg_id sg) = sg_src sg.
 Proof. unfold sig_rec, sig_src. intros ->. reflexivity. Qed.
 
-Lemma linkc_enq w qs lv ac hs fq qc ns q sg :
-  linkc w qs lv ac hs fq qc ns -> q < length qs -> sig_rec w sg -> sid_fresh_in qs (sg_id sg) ->
-  linkc (world_step w (EEnq (sg_id sg) q)) (set_nth qs q (q_put (gq qs q) sg)) lv ac hs fq qc ns.
+Lemma linkc_enq w qs lv ac hs fq qc ns rl q sg :
+  linkc w qs lv ac hs fq qc ns rl -> q < length qs -> sig_rec w sg -> sid_fresh_in qs (sg_id sg) ->
+  linkc (world_step w (EEnq (sg_id sg) q)) (set_nth qs q (q_put (gq qs q) sg)) lv ac hs fq qc ns rl.
 Proof.
   intros L Hq R F. destruct (ws_enq w (sg_id sg) q) as (S1&S2&S3&S4&S5&S6&S7&S8).
-  eapply (linkc_replace w _ qs lv ac hs fq qc ns q _ (sg_prio sg, eq_counter (gq qs q), sg)); eauto.
+  eapply (linkc_replace w (world_step w (EEnq (sg_id sg) q)) qs lv ac hs fq qc ns rl q _ (sg_prio sg, eq_counter (gq qs q), sg)); eauto; try (apply w_runloop_step; reflexivity).
   - intros q'. unfold sources. rewrite S5. fold (sources w q'). destruct (q' =? q)%nat eqn:E; [|reflexivity].
-    apply Nat.eqb_eq in E; subst. apply (lk_src _ _ _ _ _ _ _ _ L).
+    apply Nat.eqb_eq in E; subst. apply (lk_src _ _ _ _ _ _ _ _ _ L).
   - intros q'. rewrite S6. destruct (q' =? q)%nat; [|reflexivity].
-    rewrite q_put_abs by apply (lk_qwf _ _ _ _ _ _ _ _ L). rewrite (sig_rec_prio _ _ R).
-    f_equal. apply (lk_pend _ _ _ _ _ _ _ _ L).
-  - apply q_put_qwf, (lk_qwf _ _ _ _ _ _ _ _ L).
+    rewrite q_put_abs by apply (lk_qwf _ _ _ _ _ _ _ _ _ L). rewrite (sig_rec_prio _ _ R).
+    f_equal. apply (lk_pend _ _ _ _ _ _ _ _ _ L).
+  - apply q_put_qwf, (lk_qwf _ _ _ _ _ _ _ _ _ L).
   - intros e. unfold q_put. cbn [eq_entries set]. rewrite in_app_iff. intros [H|[<-|[]]]; [left; exact H|right].
     split; [reflexivity|]. split; assumption.
 Qed.
 
-Lemma linkc_pop_in w qs lv ac hs fq qc ns q m q' :
-  linkc w qs lv ac hs fq qc ns -> q_pop (gq qs q) = Some (m, q') ->
+Lemma linkc_pop_in w qs lv ac hs fq qc ns rl q m q' :
+  linkc w qs lv ac hs fq qc ns rl -> q_pop (gq qs q) = Some (m, q') ->
   In m (eq_entries (gq qs q)) /\ (forall e, In e (eq_entries q') -> In e (eq_entries (gq qs q))) /\
   pend w q = eproj m :: abs q'.
 Proof.
-  intros L P. pose proof (lk_qwf _ _ _ _ _ _ _ _ L q) as Wq.
+  intros L P. pose proof (lk_qwf _ _ _ _ _ _ _ _ _ L q) as Wq.
   destruct (q_pop_sorted _ _ _ Wq P) as (_ & Pm & _).
   split; [|split].
   - eapply Permutation_in; [apply Permutation_sym, Pm|left; reflexivity].
   - intros e He. eapply Permutation_in; [apply Permutation_sym, Pm|right; exact He].
-  - rewrite (lk_pend _ _ _ _ _ _ _ _ L). apply q_pop_abs; assumption.
+  - rewrite (lk_pend _ _ _ _ _ _ _ _ _ L). apply q_pop_abs; assumption.
 Qed.
 
-Lemma linkc_dispatch w qs lv ac hs fq qc ns q m q' sid d :
-  linkc w qs lv ac hs fq qc ns -> q < length qs -> q_pop (gq qs q) = Some (m, q') ->
-  linkc (world_step w (EDispatch sid q d)) (set_nth qs q q') lv ac hs fq qc ns.
+Lemma linkc_dispatch w qs lv ac hs fq qc ns rl q m q' sid d :
+  linkc w qs lv ac hs fq qc ns rl -> q < length qs -> q_pop (gq qs q) = Some (m, q') ->
+  linkc (world_step w (EDispatch sid q d)) (set_nth qs q q') lv ac hs fq qc ns rl.
 Proof.
   intros L Hq P. destruct (ws_dispatch w sid q d) as (S1&S2&S3&S4&S5&S6&S7&S8).
-  destruct (linkc_pop_in _ _ _ _ _ _ _ _ _ _ _ L P) as (Im & Isub & Hp).
-  pose proof (lk_qwf _ _ _ _ _ _ _ _ L q) as Wq.
+  destruct (linkc_pop_in _ _ _ _ _ _ _ _ _ _ _ _ L P) as (Im & Isub & Hp).
+  pose proof (lk_qwf _ _ _ _ _ _ _ _ _ L q) as Wq.
   destruct (q_pop_sorted _ _ _ Wq P) as (_ & _ & _ & Esrc).
-  eapply (linkc_replace w _ qs lv ac hs fq qc ns q _ m); eauto.
+  eapply (linkc_replace w (world_step w (EDispatch sid q d)) qs lv ac hs fq qc ns rl q _ m); eauto; try (apply w_runloop_step; reflexivity).
   - intros q0. unfold sources. rewrite S5. fold (sources w q0). destruct (q0 =? q)%nat eqn:E; [|reflexivity].
-    apply Nat.eqb_eq in E; subst. rewrite Esrc. apply (lk_src _ _ _ _ _ _ _ _ L).
+    apply Nat.eqb_eq in E; subst. rewrite Esrc. apply (lk_src _ _ _ _ _ _ _ _ _ L).
   - intros q0. rewrite S6. destruct (q0 =? q)%nat; [|reflexivity]. rewrite Hp. reflexivity.
   - eapply q_pop_qwf; eauto.
 Qed.
 
-Lemma linkc_requeue w qs lv ac hs fq qc ns q m q' :
-  linkc w qs lv ac hs fq qc ns -> q < length qs -> q_pop (gq qs q) = Some (m, q') ->
-  linkc w (set_nth qs q (q_put_entry q' m)) lv ac hs fq qc ns.
+Lemma linkc_requeue w qs lv ac hs fq qc ns rl q m q' :
+  linkc w qs lv ac hs fq qc ns rl -> q < length qs -> q_pop (gq qs q) = Some (m, q') ->
+  linkc w (set_nth qs q (q_put_entry q' m)) lv ac hs fq qc ns rl.
 Proof.
   intros L Hq P.
-  destruct (linkc_pop_in _ _ _ _ _ _ _ _ _ _ _ L P) as (Im & Isub & Hp).
-  pose proof (lk_qwf _ _ _ _ _ _ _ _ L q) as Wq.
+  destruct (linkc_pop_in _ _ _ _ _ _ _ _ _ _ _ _ L P) as (Im & Isub & Hp).
+  pose proof (lk_qwf _ _ _ _ _ _ _ _ _ L q) as Wq.
   destruct (q_pop_sorted _ _ _ Wq P) as (_ & _ & _ & Esrc).
-  eapply (linkc_replace w w qs lv ac hs fq qc ns q _ m); eauto.
+  eapply (linkc_replace w w qs lv ac hs fq qc ns rl q _ m); eauto.
   - intros q0. destruct (q0 =? q)%nat eqn:E; [|reflexivity].
-    apply Nat.eqb_eq in E; subst. unfold q_put_entry. cbn [eq_sources set]. rewrite Esrc. apply (lk_src _ _ _ _ _ _ _ _ L).
+    apply Nat.eqb_eq in E; subst. unfold q_put_entry. cbn [eq_sources set]. rewrite Esrc. apply (lk_src _ _ _ _ _ _ _ _ _ L).
   - intros q0. destruct (q0 =? q)%nat eqn:E; [|reflexivity].
-    apply Nat.eqb_eq in E; subst. rewrite (q_put_entry_abs _ _ _ Wq P). apply (lk_pend _ _ _ _ _ _ _ _ L).
+    apply Nat.eqb_eq in E; subst. rewrite (q_put_entry_abs _ _ _ Wq P). apply (lk_pend _ _ _ _ _ _ _ _ _ L).
   - eapply q_put_entry_qwf; eauto.
   - intros e. unfold q_put_entry. cbn [eq_entries set]. rewrite in_app_iff. intros [H|[<-|[]]]; left; auto.
 Qed.
 
-Lemma linkc_regsource w qs lv ac hs fq qc ns q o :
-  linkc w qs lv ac hs fq qc ns -> q < length qs ->
-  linkc (world_step w (ERegSource o q)) (set_nth qs q (q_add_source (gq qs q) o)) lv ac hs fq qc ns.
+Lemma linkc_regsource w qs lv ac hs fq qc ns rl q o :
+  linkc w qs lv ac hs fq qc ns rl -> q < length qs ->
+  linkc (world_step w (ERegSource o q)) (set_nth qs q (q_add_source (gq qs q) o)) lv ac hs fq qc ns rl.
 Proof.
   intros L Hq. destruct (ws_regsource w o q) as (S1&S2&S3&S4&S5&S6&S7&S8).
-  eapply (linkc_replace w _ qs lv ac hs fq qc ns q _ (0%Z, 0, mk_signal 0 exception_spec)); eauto.
+  eapply (linkc_replace w (world_step w (ERegSource o q)) qs lv ac hs fq qc ns rl q _ (0%Z, 0, mk_signal 0 exception_spec)); eauto; try (apply w_runloop_step; reflexivity).
   - intros q0. rewrite S5. destruct (q0 =? q)%nat; [|reflexivity].
-    rewrite (lk_src _ _ _ _ _ _ _ _ L). unfold q_add_source.
+    rewrite (lk_src _ _ _ _ _ _ _ _ _ L). unfold q_add_source.
     destruct (existsb (Nat.eqb o) (eq_sources (gq qs q))); reflexivity.
   - intros q0. unfold pend. rewrite S6. fold (pend w q0). destruct (q0 =? q)%nat eqn:E; [|reflexivity].
-    apply Nat.eqb_eq in E; subst. rewrite q_add_source_abs. apply (lk_pend _ _ _ _ _ _ _ _ L).
-  - apply q_add_source_qwf, (lk_qwf _ _ _ _ _ _ _ _ L).
+    apply Nat.eqb_eq in E; subst. rewrite q_add_source_abs. apply (lk_pend _ _ _ _ _ _ _ _ _ L).
+  - apply q_add_source_qwf, (lk_qwf _ _ _ _ _ _ _ _ _ L).
   - intros e. unfold q_add_source. destruct (existsb (Nat.eqb o) (eq_sources (gq qs q))); cbn [eq_entries set]; auto.
 Qed.
 
-Lemma linkc_newlevel w qs lv ac hs fq qc ns :
-  linkc w qs lv ac hs fq qc ns ->
-  linkc (world_step w (ENewLoopEnter (length qs))) (qs ++ [empty_queue]) (lv ++ [length qs]) (length qs) hs fq qc ns.
+Lemma linkc_newlevel w qs lv ac hs fq qc ns rl :
+  linkc w qs lv ac hs fq qc ns rl -> fq = false ->
+  linkc (world_step w (ENewLoopEnter (length qs))) (qs ++ [empty_queue]) (lv ++ [length qs]) (length qs) hs fq qc ns rl.
 Proof.
-  intros [K1 K2 K3 K4 K5 K6 K7 K8 K9 K10 K11 K12 K13].
+  intros [K1 K2 K3 K4 K5 K6 K7 K8 K9 K10 K11 K12 K13 K14 K15] FQ.
   split; unfold sources, pend, sig_rec in *; cbn [world_step]; cbn; try (intros; rewrite ?gq_snoc in *; eauto; fail).
   - rewrite K1. reflexivity.
   - rewrite app_length. cbn. lia.
   - rewrite app_length. cbn. apply Forall_app. split.
     + eapply Forall_impl; [|exact K10]. cbn. intros. lia.
     + constructor; [lia|constructor].
+  - congruence.
 Qed.
 
 Lemma ws_closepop w top : let w' := world_step w (EClosePop top) in
@@ -647,11 +685,12 @@ Lemma ws_closepop w top : let w' := world_step w (EClosePop top) in
   w_src w' = w_src w /\ w_pend w' = w_pend w /\ w_fq w' = w_fq w /\ w_quit w' = w_quit w.
 Proof. cbn [world_step]. cbn. destruct (last_opt (removelast (w_levels w))); cbn; repeat split. Qed.
 
-Lemma linkc_closepop w qs lv ac hs fq qc ns top rest_rev :
-  linkc w qs lv ac hs fq qc ns -> rev lv = top :: rest_rev ->
-  linkc (world_step w (EClosePop top)) qs (rev rest_rev) (match rest_rev with [] => ac | q :: _ => q end) hs fq qc ns.
+Lemma linkc_closepop w qs lv ac hs fq qc ns rl top rest_rev :
+  linkc w qs lv ac hs fq qc ns rl -> rev lv = top :: rest_rev ->
+  linkc (world_step w (EClosePop top)) qs (rev rest_rev) (match rest_rev with [] => ac | q :: _ => q end) hs fq qc ns
+        (match rest_rev with [] => rl | _ :: _ => false end).
 Proof.
-  intros [K1 K2 K3 K4 K5 K6 K7 K8 K9 K10 K11 K12 K13] R.
+  intros [K1 K2 K3 K4 K5 K6 K7 K8 K9 K10 K11 K12 K13 K14 K15] R.
   destruct (ws_closepop w top) as (S1&S2&S3&S4&S5&S6&S7&S8).
   assert (Elv : lv = rev rest_rev ++ [top]) by (rewrite <- (rev_involutive lv), R; reflexivity).
   assert (Erl : removelast (w_levels w) = rev rest_rev) by (rewrite K1, Elv; apply removelast_last).
@@ -660,39 +699,41 @@ Proof.
   - destruct rest_rev as [|q r]; [exact K9|]. rewrite Forall_forall in K10. apply K10.
     rewrite Elv. cbn. rewrite !in_app_iff. left; right; left; reflexivity.
   - rewrite Elv in K10. apply Forall_app in K10. apply K10.
+  - intros _. cbn [world_step]. cbn. destruct (last_opt (removelast (w_levels w))); reflexivity.
+  - intros F. apply K15 in F. rewrite F in R. cbn in R. discriminate R.
 Qed.
 
-Lemma linkc_forcequit w qs lv ac hs fq qc ns :
-  linkc w qs lv ac hs fq qc ns -> linkc (world_step w EForceQuit) qs [] ac hs true qc ns.
+Lemma linkc_forcequit w qs lv ac hs fq qc ns rl :
+  linkc w qs lv ac hs fq qc ns rl -> linkc (world_step w EForceQuit) qs [] ac hs true qc ns false.
 Proof.
-  intros [K1 K2 K3 K4 K5 K6 K7 K8 K9 K10 K11 K12 K13].
+  intros [K1 K2 K3 K4 K5 K6 K7 K8 K9 K10 K11 K12 K13 K14 K15].
   split; unfold sources, pend, sig_rec in *; cbn [world_step]; cbn; auto.
 Qed.
 
-Lemma linkc_runenter w qs lv ac hs fq qc ns :
-  linkc w qs lv ac hs fq qc ns -> linkc (world_step w ERunEnter) qs lv ac hs false qc ns.
+Lemma linkc_runenter w qs lv ac hs fq qc ns rl :
+  linkc w qs lv ac hs fq qc ns rl -> linkc (world_step w ERunEnter) qs lv ac hs false qc ns true.
 Proof.
-  intros [K1 K2 K3 K4 K5 K6 K7 K8 K9 K10 K11 K12 K13].
-  split; unfold sources, pend, sig_rec in *; cbn [world_step]; cbn; auto.
+  intros [K1 K2 K3 K4 K5 K6 K7 K8 K9 K10 K11 K12 K13 K14 K15].
+  split; unfold sources, pend, sig_rec in *; cbn [world_step]; cbn; auto; try discriminate.
 Qed.
 
-Lemma linkc_reghandler w qs lv ac hs fq qc ns c h d :
-  linkc w qs lv ac hs fq qc ns ->
-  linkc (world_step w (ERegHandler c h d)) qs lv ac (add_handler hs c h d) fq qc ns.
+Lemma linkc_reghandler w qs lv ac hs fq qc ns rl c h d :
+  linkc w qs lv ac hs fq qc ns rl ->
+  linkc (world_step w (ERegHandler c h d)) qs lv ac (add_handler hs c h d) fq qc ns rl.
 Proof.
-  intros [K1 K2 K3 K4 K5 K6 K7 K8 K9 K10 K11 K12 K13].
+  intros [K1 K2 K3 K4 K5 K6 K7 K8 K9 K10 K11 K12 K13 K14 K15].
   split; unfold sources, pend, sig_rec in *; cbn [world_step]; cbn; auto.
   rewrite update_add_handler, K5. reflexivity.
 Qed.
 
-Lemma linkc_setquit w qs lv ac hs fq qc ns a :
-  linkc w qs lv ac hs fq qc ns -> linkc (world_step w (ESetQuitCb a)) qs lv ac hs fq (Some a) ns.
+Lemma linkc_setquit w qs lv ac hs fq qc ns rl a :
+  linkc w qs lv ac hs fq qc ns rl -> linkc (world_step w (ESetQuitCb a)) qs lv ac hs fq (Some a) ns rl.
 Proof.
-  intros [K1 K2 K3 K4 K5 K6 K7 K8 K9 K10 K11 K12 K13].
+  intros [K1 K2 K3 K4 K5 K6 K7 K8 K9 K10 K11 K12 K13 K14 K15].
   split; unfold sources, pend, sig_rec in *; cbn [world_step]; cbn; auto.
 Qed.
 
-Lemma linkc_init : linkc world0 [empty_queue] [0] 0 [] false None 0.
+Lemma linkc_init : linkc world0 [empty_queue] [0] 0 [] false None 0 true.
 Proof.
   split; unfold sources, pend, sig_rec; cbn; auto.
   - intros [|[|q]]; reflexivity.
@@ -701,6 +742,24 @@ Proof.
   - intros [|[|q]] e; cbn; tauto.
   - discriminate.
   - intros [|[|q1]] q2 e1 e2; cbn; tauto.
+  - discriminate.
+Qed.
+
+(* _mainloop re-arms the stop flag on its way out (no event) ... *)
+Lemma linkc_rearm w qs lv ac hs fq qc ns rl :
+  linkc w qs lv ac hs fq qc ns rl -> linkc w qs lv ac hs fq qc ns true.
+Proof.
+  intros [K1 K2 K3 K4 K5 K6 K7 K8 K9 K10 K11 K12 K13 K14 K15]. split; auto. discriminate.
+Qed.
+
+(* ... and the observer learns it at the following ENewLoopReturn *)
+Lemma linkc_newloopret w qs lv ac hs fq qc ns rl q :
+  linkc w qs lv ac hs fq qc ns rl -> (fq = false -> rl = true) ->
+  linkc (world_step w (ENewLoopReturn q)) qs lv ac hs fq qc ns rl.
+Proof.
+  intros [K1 K2 K3 K4 K5 K6 K7 K8 K9 K10 K11 K12 K13 K14 K15] H.
+  split; unfold sources, pend, sig_rec in *; cbn [world_step]; destruct (w_fq w) eqn:F; cbn; auto; try congruence.
+  intros R. rewrite H in R by congruence. discriminate.
 Qed.
 
 Definition is_signew (e : event) : bool := match e with ESigNew _ _ _ _ => true | _ => false end.
@@ -719,7 +778,7 @@ Qed.
 (* events emitted on their own, with no change of the linked state *)
 Definition plain (e : event) : bool :=
   match e with
-  | EHandler _ _ _ | EHandlerEnd _ _ _ | EDispatchEnd _ | ENewLoopReturn _ | EProcEnter _ _ | EProcReturn _ _
+  | EHandler _ _ _ | EHandlerEnd _ _ _ | EDispatchEnd _ | EProcEnter _ _ | EProcReturn _ _
   | EQuitCb _ | ERunReturn | EKill | EExt _ | EMark _ | ETop | EUser _ _ _ => true
   | _ => false
   end.
@@ -757,7 +816,12 @@ Section Steps.
       astep s (emit (ERegSource o (active s)) (set_q s (active s) (q_add_source (get_q s (active s)) o)))
   | A_reghandler s cls hid data :
       astep s (emit (ERegHandler cls hid data) (s <| handlers := add_handler (handlers s) cls hid data |>))
-  | A_setquit s arg : astep s (emit (ESetQuitCb arg) (s <| quit_cb := Some arg |>)).
+  | A_setquit s arg : astep s (emit (ESetQuitCb arg) (s <| quit_cb := Some arg |>))
+  | A_rearm s : astep s (s <| run_loop := true |>)           (* _mainloop on its way out *)
+  | A_newloopret s q :                                       (* execute_new_loop returns *)
+      (force_quit s = false -> run_loop s = true) ->
+      (~ In q (levels s) \/ In q (w_stillborn (W s))) ->
+      astep s (emit (ENewLoopReturn q) s).
 
   Inductive steps : lstate -> lstate -> Prop :=
   | steps_refl s : steps s s
@@ -777,9 +841,9 @@ Section Steps.
   Qed.
 
   Lemma link_active_lt s : link s -> active s < length (qstore s).
-  Proof. intros L. unfold link, linkw in L. apply (lk_active_lt _ _ _ _ _ _ _ _ L). Qed.
+  Proof. intros L. unfold link, linkw in L. apply (lk_active_lt _ _ _ _ _ _ _ _ _ L). Qed.
   Lemma link_levels_lt s : link s -> Forall (fun q => q < length (qstore s)) (levels s).
-  Proof. intros L. unfold link, linkw in L. apply (lk_levels_lt _ _ _ _ _ _ _ _ L). Qed.
+  Proof. intros L. unfold link, linkw in L. apply (lk_levels_lt _ _ _ _ _ _ _ _ _ L). Qed.
 
   Lemma link_route_target s sg : link s ->
     match route s (rev (levels s)) (sg_src sg) with Some q => q | None => active s end < length (qstore s).
@@ -795,7 +859,7 @@ Section Steps.
   Proof.
     intros L. unfold new_signal, link, linkw, sid_fresh. cbn [fst snd]. rewrite !W_emit. st_simpl.
     change (W (s <| next_sig := S (next_sig s) |>)) with (W s).
-    apply (linkc_signew _ _ _ _ _ _ _ _ sp L).
+    apply (linkc_signew _ _ _ _ _ _ _ _ _ sp L).
   Qed.
 
   Lemma astep_link s s' : link s -> astep s s' -> link s'.
@@ -812,13 +876,14 @@ Section Steps.
       eapply linkc_dispatch; [exact L|apply link_active_lt, L|exact H].
     - apply link_emit_passive; [reflexivity|]. unfold link, linkw. st_simpl. change (W (set_q s ?q ?v)) with (W s).
       eapply linkc_requeue; [exact L|apply link_active_lt, L|exact H].
-    - unfold link, linkw. rewrite W_emit. st_simpl. apply (linkc_runenter _ _ _ _ _ _ _ _ L).
-    - unfold link, linkw. rewrite W_emit. st_simpl. apply (linkc_forcequit _ _ _ _ _ _ _ _ L).
-    - unfold link, linkw. rewrite W_emit. st_simpl. apply (linkc_newlevel _ _ _ _ _ _ _ _ L).
+    - unfold link, linkw. rewrite W_emit. st_simpl. apply (linkc_runenter _ _ _ _ _ _ _ _ _ L).
+    - unfold link, linkw. rewrite W_emit. st_simpl. apply (linkc_forcequit _ _ _ _ _ _ _ _ _ L).
+    - unfold link, linkw. rewrite W_emit. st_simpl. apply (linkc_newlevel _ _ _ _ _ _ _ _ _ L H).
     - assert (L' : linkc (world_step (W s) (EClosePop top)) (qstore s) (rev rest_rev)
                          (match rest_rev with [] => active s | q :: _ => q end)
-                         (handlers s) (force_quit s) (quit_cb s) (next_sig s))
-        by (apply (linkc_closepop _ _ _ _ _ _ _ _ _ _ L H)).
+                         (handlers s) (force_quit s) (quit_cb s) (next_sig s)
+                         (match rest_rev with [] => run_loop s | _ :: _ => false end))
+        by (apply (linkc_closepop _ _ _ _ _ _ _ _ _ _ _ L H)).
       destruct rest_rev as [|q r]; unfold link, linkw.
       + rewrite W_emit. st_simpl. exact L'.
       + change (W (emit (EClosePop top) (s <| levels := rev (q :: r) |>) <| active := q |> <| run_loop := false |>))
@@ -827,7 +892,10 @@ Section Steps.
     - unfold link, linkw. rewrite W_emit. st_simpl. change (W (set_q s ?q ?v)) with (W s).
       apply linkc_regsource; [exact L|apply link_active_lt, L].
     - unfold link, linkw. rewrite W_emit. st_simpl. apply linkc_reghandler, L.
-    - unfold link, linkw. rewrite W_emit. st_simpl. apply (linkc_setquit _ _ _ _ _ _ _ _ _ L).
+    - unfold link, linkw. rewrite W_emit. st_simpl. apply (linkc_setquit _ _ _ _ _ _ _ _ _ _ L).
+    - unfold link, linkw. st_simpl. change (W (s <| run_loop := true |>)) with (W s).
+      apply (linkc_rearm _ _ _ _ _ _ _ _ _ L).
+    - unfold link, linkw. rewrite W_emit. st_simpl. apply (linkc_newloopret _ _ _ _ _ _ _ _ _ q L H).
   Qed.
 
   Lemma steps_link s s' : link s -> steps s s' -> link s'.
@@ -836,6 +904,133 @@ Section Steps.
   Lemma link_init (u : U) : link (init_state u).
   Proof. unfold link, linkw, W. cbn. apply linkc_init. Qed.
 End Steps.
+
+(* ---- how the stack of levels can change: a prefix survives, what is pushed is new ---- *)
+Definition lrel (qn : nat) (l l' : list nat) : Prop :=
+  exists k post, l' = firstn k l ++ post /\ Forall (fun x => qn <= x) post.
+
+Lemma lrel_refl qn l : lrel qn l l.
+Proof. exists (length l), []. rewrite firstn_all, app_nil_r. split; [reflexivity|constructor]. Qed.
+
+Lemma Forall_firstn {A} (P : A -> Prop) n (l : list A) : Forall P l -> Forall P (firstn n l).
+Proof. revert n; induction l as [|a r IH]; intros [|n] H; cbn; try constructor; inversion H; subst; auto. Qed.
+
+Lemma In_firstn {A} n (l : list A) x : In x (firstn n l) -> In x l.
+Proof. revert n; induction l as [|a r IH]; intros [|n]; cbn; try tauto. intros [H|H]; eauto. Qed.
+
+Lemma lrel_trans qn qn' l l' l'' : qn <= qn' -> lrel qn l l' -> lrel qn' l' l'' -> lrel qn l l''.
+Proof.
+  intros Hq (k & post & -> & F) (k' & post' & -> & F').
+  exists (Nat.min k' k), (firstn (k' - length (firstn k l)) post ++ post'). split.
+  - rewrite firstn_app, firstn_firstn, app_assoc. reflexivity.
+  - apply Forall_app. split; [apply Forall_firstn, F|]. eapply Forall_impl; [|exact F']. cbn. intros. lia.
+Qed.
+
+Section Spec.
+  Context {U : Type}.
+  Notation lstate := (lstate U).
+  Implicit Types s : lstate.
+
+  (* open levels, plus one while a stop request is pending; nothing once force-quit *)
+  Definition psi s : nat :=
+    if force_quit s then 0 else length (levels s) + (if run_loop s then 0 else 1).
+
+  Definition Rel s s' : Prop :=
+    length (qstore s) <= length (qstore s') /\
+    lrel (length (qstore s)) (levels s) (levels s') /\
+    incl (w_stillborn (W s)) (w_stillborn (W s')).
+
+  Lemma rel_refl s : Rel s s.
+  Proof. split; [lia|split; [apply lrel_refl|apply incl_refl]]. Qed.
+  Lemma rel_trans s s1 s2 : Rel s s1 -> Rel s1 s2 -> Rel s s2.
+  Proof.
+    intros (A1 & B1 & C1) (A2 & B2 & C2). split; [lia|split].
+    - eapply lrel_trans; eauto.
+    - eapply incl_tran; eauto.
+  Qed.
+
+  Lemma rel_same s s' : length (qstore s') = length (qstore s) -> levels s' = levels s ->
+    (trace s' = trace s \/ exists e, trace s' = e :: trace s) -> Rel s s'.
+  Proof.
+    intros E1 E2 HW. split; [lia|split; [rewrite E2; apply lrel_refl|]].
+    destruct HW as [T|(e & T)]; [rewrite (W_trace _ _ T); apply incl_refl|].
+    unfold W. rewrite T. cbn [rev]. rewrite world_of_snoc. apply w_stillborn_step.
+  Qed.
+
+  Lemma astep_rel s s' : link s -> astep s s' -> Rel s s'.
+  Proof.
+    intros L A.
+    destruct A as [s s' C T|s e P|s sp|s sg R F|s p c sg q' P|s p c sg q' P|s|s|s FQ|s top rest_rev R|s o|s cls hid data|s arg|s|s q H1 H2].
+    - destruct C as (C1 & C2 & _). apply rel_same; [congruence|congruence|left; exact T].
+    - apply rel_same; [reflexivity|reflexivity|right; eexists; reflexivity].
+    - apply rel_same; [reflexivity|reflexivity|right; eexists; reflexivity].
+    - unfold do_enqueue. destruct (force_quit s).
+      + apply rel_same; [reflexivity|reflexivity|right; eexists; reflexivity].
+      + apply rel_same; [st_simpl; apply set_nth_length|reflexivity|right; eexists; reflexivity].
+    - apply rel_same; [st_simpl; apply set_nth_length|reflexivity|right; eexists; reflexivity].
+    - apply rel_same; [st_simpl; apply set_nth_length|reflexivity|right; eexists; reflexivity].
+    - apply rel_same; [reflexivity|reflexivity|right; eexists; reflexivity].
+    - split; [st_simpl; lia|split].
+      + st_simpl. exists 0, []. split; [reflexivity|constructor].
+      + rewrite W_emit. apply w_stillborn_step.
+    - split; [st_simpl; rewrite app_length; lia|split].
+      + st_simpl. exists (length (levels s)), [length (qstore s)]. rewrite firstn_all. split; [reflexivity|].
+        constructor; [lia|constructor].
+      + rewrite W_emit. apply w_stillborn_step.
+    - assert (Elv : levels s = rev rest_rev ++ [top]) by (rewrite <- (rev_involutive (levels s)), R; reflexivity).
+      assert (HR : Rel s (emit (EClosePop top) (s <| levels := rev rest_rev |>))).
+      { split; [st_simpl; lia|split].
+        - st_simpl. exists (length (rev rest_rev)), []. rewrite Elv, firstn_app, firstn_all, Nat.sub_diag, app_nil_r. cbn.
+          rewrite app_nil_r. split; [reflexivity|constructor].
+        - rewrite W_emit. apply w_stillborn_step. }
+      destruct rest_rev as [|q r]; [exact HR|]. exact HR.
+    - apply rel_same; [st_simpl; apply set_nth_length|reflexivity|right; eexists; reflexivity].
+    - apply rel_same; [reflexivity|reflexivity|right; eexists; reflexivity].
+    - apply rel_same; [reflexivity|reflexivity|right; eexists; reflexivity].
+    - apply rel_same; [reflexivity|reflexivity|left; reflexivity].
+    - apply rel_same; [reflexivity|reflexivity|right; eexists; reflexivity].
+  Qed.
+
+  Lemma steps_rel s s' : link s -> steps s s' -> Rel s s'.
+  Proof.
+    intros L S. induction S as [s|s s1 s2 A S IH]; [apply rel_refl|].
+    eapply rel_trans; [eapply astep_rel; eauto|]. apply IH. eapply astep_link; eauto.
+  Qed.
+
+  Lemma link_fq_levels s : link s -> force_quit s = true -> levels s = [].
+  Proof. intros L. unfold link, linkw in L. apply (lk_fq_levels _ _ _ _ _ _ _ _ _ L). Qed.
+  Lemma link_runloop s : link s -> run_loop s = false -> w_runloop (W s) = false.
+  Proof. intros L. unfold link, linkw in L. apply (lk_runloop _ _ _ _ _ _ _ _ _ L). Qed.
+
+  (* a nested loop returns only once its level is gone — unless it was opened under a pending stop request *)
+  Lemma newloop_return_ok s1 s4 :
+    link s1 -> force_quit s1 = false ->
+    let q := length (qstore s1) in
+    let s2e := emit (ENewLoopEnter q)
+                    (s1 <| qstore := qstore s1 ++ [empty_queue] |> <| active := q |> <| levels := levels s1 ++ [q] |>) in
+    Rel s2e s4 -> link s4 ->
+    (force_quit s4 = true \/ (run_loop s4 = true /\ length (levels s4) + 1 <= psi s2e)) ->
+    ~ In q (levels s4) \/ In q (w_stillborn (W s4)).
+  Proof.
+    intros L1 FQ1 q s2e (Hq & (k & post & Elv & Fp) & Hst) L4 H.
+    destruct H as [F4|(R4 & Hlen)].
+    { left. rewrite (link_fq_levels _ L4 F4). intros []. }
+    unfold psi, s2e in Hlen. st_simpl_in Hlen. rewrite FQ1, app_length in Hlen. cbn [length] in Hlen.
+    unfold s2e in Elv, Fp, Hq. st_simpl_in Elv. st_simpl_in Fp. st_simpl_in Hq.
+    rewrite app_length in Fp, Hq. cbn [length] in Fp, Hq.
+    destruct (run_loop s1) eqn:R1.
+    - left. intros I. rewrite Elv in I, Hlen. rewrite app_length in Hlen. apply in_app_iff in I. destruct I as [I|I].
+      + destruct (Nat.le_gt_cases k (length (levels s1))) as [Hk|Hk].
+        * rewrite firstn_app in I. replace (k - length (levels s1)) with 0 in I by lia. cbn in I. rewrite app_nil_r in I.
+          assert (I' : In q (levels s1)) by (eapply In_firstn; exact I).
+          pose proof (link_levels_lt _ L1) as Hlt. rewrite Forall_forall in Hlt. apply Hlt in I'. unfold q in I'. lia.
+        * rewrite firstn_all2 in Hlen by (rewrite app_length; cbn; lia). rewrite app_length in Hlen. cbn in Hlen. lia.
+      + rewrite Forall_forall in Fp. apply Fp in I. fold q in I. lia.
+    - right. apply Hst. unfold s2e. rewrite W_emit.
+      change (W (s1 <| qstore := qstore s1 ++ [empty_queue] |> <| active := q |> <| levels := levels s1 ++ [q] |>)) with (W s1).
+      cbn [world_step]. cbn. rewrite (link_runloop _ L1 R1). left. reflexivity.
+  Qed.
+End Spec.
 
 Section Exec.
   Context {U : Type}.
@@ -881,133 +1076,254 @@ Section Exec.
     apply steps_one, A_enq; [apply sig_rec_emit; [reflexivity|exact R]|exact F].
   Qed.
 
-  Theorem exec_steps : forall fuel c s o s', link s -> exec code fuel c s = (o, s') -> steps s s'.
+  (* ---- the control-flow specification: what a call that comes back has done to the stack of levels ---- *)
+  Definition okout (o : outcome) : Prop := o = ONormal \/ o = OThrow XError.
+
+  Definition Post (c : call U) (s : lstate) (o : outcome) (s' : lstate) : Prop :=
+    okout o ->
+    match c with
+    | CRun => True
+    | CMainloop => o = ONormal /\
+                   (force_quit s' = true \/ (run_loop s' = true /\ length (levels s') + 1 <= psi s))
+    | CProcLoop => o = ONormal /\ psi s' <= psi s /\ run_loop s' = false
+    | CProcessSignal _ _ | CProcIter _ => o = ONormal /\ psi s' <= psi s
+    | _ => psi s' <= psi s
+    end.
+
+  Definition pcore (s : lstate) := (force_quit s, levels s, run_loop s).
+  Lemma psi_core s s' : pcore s' = pcore s -> psi s' = psi s.
+  Proof. unfold pcore, psi. intros H. inversion H as [[H1 H2 H3]]. rewrite H1, H2, H3. reflexivity. Qed.
+
+  Lemma pcore_do_enqueue s sg : pcore (do_enqueue s sg) = pcore s.
+  Proof. unfold do_enqueue. destruct (force_quit s) eqn:F; unfold pcore; st_simpl; rewrite ?F; reflexivity. Qed.
+  Lemma pcore_new_signal s sp : pcore (snd (new_signal s sp)) = pcore s.
+  Proof. reflexivity. Qed.
+
+  Lemma do_get_ext_pcore s s1 : do_get s = inr s1 -> pcore s1 = pcore s.
+  Proof.
+    unfold do_get. destruct (q_pop (get_q s (active s))) as [[[[p c] sg'] q']|]; [discriminate|].
+    destruct (ext s) as [|sp r] eqn:E; [discriminate|].
+    pose proof (pcore_new_signal (s <| ext := r |>) sp) as P.
+    destruct (new_signal (s <| ext := r |>) sp) as [sg s1'] eqn:N. cbn [snd] in P.
+    intros H. inversion H; subst s1. rewrite pcore_do_enqueue. exact P.
+  Qed.
+
+  Ltac vac := let X := fresh "X" in intros [X|X]; discriminate X.
+
+  Theorem exec_spec : forall fuel c s o s', link s -> exec code fuel c s = (o, s') -> steps s s' /\ Post c s o s'.
   Proof.
     induction fuel as [|f IH]; intros c s o s' L H.
-    { cbn in H. inversion H; subst. apply steps_refl. }
-    assert (IH' : forall c s0 o s1, steps s s0 -> exec code f c s0 = (o, s1) -> steps s s1).
-    { intros c0 s0 o0 s1 S0 E. eapply steps_trans; [exact S0|]. eapply IH; [|exact E]. eapply steps_link; eauto. }
+    { cbn in H. inversion H; subst. split; [apply steps_refl|unfold Post; vac]. }
+    assert (IH' : forall c s0 o s1, steps s s0 -> exec code f c s0 = (o, s1) -> steps s s1 /\ Post c s0 o s1).
+    { intros c0 s0 o0 s1 S0 E. destruct (IH c0 s0 o0 s1) as [S1 P1]; [eapply steps_link; eauto|exact E|].
+      split; [eapply steps_trans; eauto|exact P1]. }
     assert (LK : forall s0, steps s s0 -> link s0) by (intros; eapply steps_link; eauto).
     destruct c; cbn [exec] in H.
     - (* CRun *)
+      split; [|intros _; exact I].
       set (s0 := emit ERunEnter _) in H.
       assert (S0 : steps s s0) by apply steps_one, A_runenter.
       destruct (exec code f CMainloop s0) as [o1 s1] eqn:E1.
-      assert (S1 : steps s s1) by (eapply IH'; eauto).
+      destruct (IH' _ _ _ _ S0 E1) as [S1 _].
       assert (S2 : steps s (match quit_cb s1 with Some a => emit (EQuitCb a) s1 | None => s1 end)).
       { destruct (quit_cb s1); [|exact S1]. eapply steps_snoc; [exact S1|apply A_emit; reflexivity]. }
       destruct o1 as [|[| |]| |]; inversion H; subst; try exact S1.
       all: eapply steps_snoc; [exact S2|apply A_emit; reflexivity].
     - (* CMainloop *)
-      destruct (run_loop s).
+      destruct (run_loop s) eqn:R.
       + destruct (exec code f CProcLoop s) as [o1 s1] eqn:E1.
-        assert (S1 : steps s s1) by (eapply IH'; [apply steps_refl|eauto]).
-        destruct o1; [eapply IH'; eauto|..]; inversion H; subst; exact S1.
-      + inversion H; subst. destruct (force_quit s); [apply steps_refl|].
-        apply irrel_step; [repeat split|reflexivity].
+        destruct (IH' _ _ _ _ (steps_refl s) E1) as [S1 P1].
+        destruct o1.
+        * destruct (P1 (or_introl eq_refl)) as (_ & Hp1 & _).
+          destruct (IH' _ _ _ _ S1 H) as [S' P']. split; [exact S'|].
+          intros OK. destruct (P' OK) as (-> & D). split; [reflexivity|].
+          destruct D as [F|(R' & Hl)]; [left; exact F|right; split; [exact R'|lia]].
+        * inversion H; subst. split; [exact S1|]. intros OK. destruct (P1 OK) as (X & _). discriminate X.
+        * inversion H; subst. split; [exact S1|]. vac.
+        * inversion H; subst. split; [exact S1|]. vac.
+      + inversion H; subst o s'. destruct (force_quit s) eqn:F.
+        * split; [apply steps_refl|]. intros _. split; [reflexivity|left; exact F].
+        * split; [apply steps_one, A_rearm|]. intros _. split; [reflexivity|right]. split; [reflexivity|].
+          unfold psi. rewrite F, R. st_simpl. lia.
     - (* CProcLoop *)
-      destruct (run_loop s); [|inversion H; subst; apply steps_refl].
+      destruct (run_loop s) eqn:R; [|inversion H; subst; split; [apply steps_refl|intros _; repeat split; auto]].
       destruct (do_get s) as [[[sg s1]|]|s1] eqn:G.
       + destruct (do_get_some _ _ _ G) as (p & c & q' & P & ->).
         set (s2 := emit _ _) in H.
         assert (S2 : steps s s2) by (eapply steps_one, A_dispatch; eauto).
+        assert (E2 : psi s2 = psi s) by reflexivity.
         destruct (exec code f (CProcessSignal sg 0) s2) as [o1 s3] eqn:E1.
-        assert (S3 : steps s s3) by (eapply IH'; eauto).
-        destruct o1; [eapply IH'; eauto|..]; inversion H; subst; exact S3.
-      + inversion H; subst; apply steps_refl.
-      + eapply IH'; [|exact H]. apply do_get_ext; assumption.
+        destruct (IH' _ _ _ _ S2 E1) as [S3 P3].
+        destruct o1.
+        * destruct (P3 (or_introl eq_refl)) as (_ & Hp3).
+          destruct (IH' _ _ _ _ S3 H) as [S' P']. split; [exact S'|].
+          intros OK. destruct (P' OK) as (-> & Hp & R'). repeat split; [lia|exact R'].
+        * inversion H; subst. split; [exact S3|]. intros OK. destruct (P3 OK) as (X & _). discriminate X.
+        * inversion H; subst. split; [exact S3|]. vac.
+        * inversion H; subst. split; [exact S3|]. vac.
+      + inversion H; subst. split; [apply steps_refl|vac].
+      + pose proof (do_get_ext _ _ L G) as S1. pose proof (psi_core _ _ (do_get_ext_pcore _ _ G)) as E1.
+        destruct (IH' _ _ _ _ S1 H) as [S' P']. split; [exact S'|].
+        intros OK. destruct (P' OK) as (-> & Hp & R'). repeat split; [lia|exact R'].
     - (* CProcWait *)
-      destruct (run_loop s); [|inversion H; subst; apply steps_refl].
+      destruct (run_loop s) eqn:R; [|inversion H; subst; split; [apply steps_refl|intros _; apply le_n]].
       destruct (do_get s) as [[[sg s1]|]|s1] eqn:G.
       + destruct (do_get_some _ _ _ G) as (p & c & q' & P & ->).
         set (s2 := emit _ _) in H.
         assert (S2 : steps s s2) by (eapply steps_one, A_dispatch; eauto).
+        assert (E2 : psi s2 = psi s) by reflexivity.
         destruct (exec code f (CProcessSignal sg 0) s2) as [o1 s3] eqn:E1.
-        assert (S3 : steps s s3) by (eapply IH'; eauto).
-        destruct o1; [|inversion H; subst; exact S3..].
-        destruct (check_ticket (tickets s3) cls ticket) as [[[|] t']|].
-        * inversion H; subst. eapply steps_trans; [exact S3|]. apply irrel_step; [repeat split|reflexivity].
-        * eapply IH'; eauto.
-        * inversion H; subst; exact S3.
-      + inversion H; subst; apply steps_refl.
-      + eapply IH'; [|exact H]. apply do_get_ext; assumption.
+        destruct (IH' _ _ _ _ S2 E1) as [S3 P3].
+        destruct o1.
+        * destruct (P3 (or_introl eq_refl)) as (_ & Hp3).
+          destruct (check_ticket (tickets s3) cls ticket) as [[[|] t']|].
+          -- inversion H; subst. split.
+             ++ eapply steps_trans; [exact S3|]. apply irrel_step; [repeat split|reflexivity].
+             ++ intros _. change (psi (s3 <| tickets := t' |>)) with (psi s3). lia.
+          -- destruct (IH' _ _ _ _ S3 H) as [S' P']. split; [exact S'|]. intros OK. specialize (P' OK). cbn in P'. lia.
+          -- inversion H; subst. split; [exact S3|]. intros _. lia.
+        * inversion H; subst. split; [exact S3|]. intros OK. destruct (P3 OK) as (X & _). discriminate X.
+        * inversion H; subst. split; [exact S3|]. vac.
+        * inversion H; subst. split; [exact S3|]. vac.
+      + inversion H; subst. split; [apply steps_refl|vac].
+      + pose proof (do_get_ext _ _ L G) as S1. pose proof (psi_core _ _ (do_get_ext_pcore _ _ G)) as E1.
+        destruct (IH' _ _ _ _ S1 H) as [S' P']. split; [exact S'|].
+        intros OK. specialize (P' OK). cbn in P'. lia.
     - (* CProcIter *)
-      destruct (negb (q_empty (get_q s (active s))) && run_loop s); [|inversion H; subst; apply steps_refl].
-      destruct (q_pop (get_q s (active s))) as [[[[p cnt] sg] q']|] eqn:P; [|inversion H; subst; apply steps_refl].
+      destruct (negb (q_empty (get_q s (active s))) && run_loop s);
+        [|inversion H; subst; split; [apply steps_refl|intros _; split; [reflexivity|apply le_n]]].
+      destruct (q_pop (get_q s (active s))) as [[[[p cnt] sg] q']|] eqn:P;
+        [|inversion H; subst; split; [apply steps_refl|intros _; split; [reflexivity|apply le_n]]].
       assert (GO : forall o s',
                  (let s1 := set_q s (active s) q' in
                   let s2 := emit (EDispatch (sg_id sg) (active s) (length (levels s))) s1 in
                   let '(o, s3) := exec code f (CProcessSignal sg 0) s2 in
                   match o with ONormal => exec code f (CProcIter (Some p)) s3 | _ => (o, s3) end) = (o, s') ->
-                 steps s s').
+                 steps s s' /\ Post (CProcIter prio) s o s').
       { clear H. intros o0 s0' H. cbn zeta in H. set (s2 := emit _ _) in H.
         assert (S2 : steps s s2) by (eapply steps_one, A_dispatch; eauto).
+        assert (E2 : psi s2 = psi s) by reflexivity.
         destruct (exec code f (CProcessSignal sg 0) s2) as [o1 s3] eqn:E1.
-        assert (S3 : steps s s3) by (eapply IH'; eauto).
-        destruct o1; [eapply IH'; eauto|..]; inversion H; subst; exact S3. }
+        destruct (IH' _ _ _ _ S2 E1) as [S3 P3].
+        destruct o1.
+        - destruct (P3 (or_introl eq_refl)) as (_ & Hp3).
+          destruct (IH' _ _ _ _ S3 H) as [S' P']. split; [exact S'|].
+          intros OK. destruct (P' OK) as (-> & Hp). split; [reflexivity|lia].
+        - inversion H; subst. split; [exact S3|]. intros OK. destruct (P3 OK) as (X & _). discriminate X.
+        - inversion H; subst. split; [exact S3|]. vac.
+        - inversion H; subst. split; [exact S3|]. vac. }
       destruct prio as [p0|]; [|apply GO in H; exact H].
       destruct (p =? p0)%Z; [apply GO in H; exact H|].
-      inversion H; subst. eapply steps_one, A_requeue; eauto.
+      inversion H; subst. split; [eapply steps_one, A_requeue; eauto|].
+      intros _. split; [reflexivity|apply le_n].
     - (* CProcessSignal *)
       set (s0 := if (idx =? 0)%nat then _ else s) in H.
       assert (S0 : steps s s0).
       { unfold s0. destruct (idx =? 0)%nat; [|apply steps_refl]. apply irrel_step; [repeat split|reflexivity]. }
+      assert (E0 : psi s0 = psi s) by (unfold s0; destruct (idx =? 0)%nat; reflexivity).
       clearbody s0.
       destruct (handlers_of s0 (sg_cls sg)) as [hs|].
       + destruct (force_quit s0).
-        { inversion H; subst. eapply steps_snoc; [exact S0|apply A_emit; reflexivity]. }
+        { inversion H; subst. split; [eapply steps_snoc; [exact S0|apply A_emit; reflexivity]|].
+          intros _. split; [reflexivity|]. change (psi (emit (EDispatchEnd (sg_id sg)) s0)) with (psi s0). lia. }
         destruct (nth_error hs idx) as [[hid data]|].
-        2:{ inversion H; subst. eapply steps_snoc; [exact S0|apply A_emit; reflexivity]. }
+        2:{ inversion H; subst. split; [eapply steps_snoc; [exact S0|apply A_emit; reflexivity]|].
+            intros _. split; [reflexivity|]. change (psi (emit (EDispatchEnd (sg_id sg)) s0)) with (psi s0). lia. }
         set (s1 := emit _ s0) in H.
         assert (S1 : steps s s1) by (eapply steps_snoc; [exact S0|apply A_emit; reflexivity]).
+        assert (E1' : psi s1 = psi s0) by reflexivity.
         destruct (exec code f (CProg (code hid sg data)) s1) as [o1 s2] eqn:E1.
-        assert (S2 : steps s s2) by (eapply IH'; eauto).
+        destruct (IH' _ _ _ _ S1 E1) as [S2 P2].
         destruct o1 as [|[| |]| |].
-        * eapply IH'; [|exact H]. eapply steps_snoc; [exact S2|apply A_emit; reflexivity].
-        * inversion H; subst. eapply steps_snoc; [exact S2|apply A_emit; reflexivity].
-        * set (s3 := emit _ s2) in H.
+        * specialize (P2 (or_introl eq_refl)). cbn in P2.
+          set (s3 := emit _ s2) in H.
           assert (S3 : steps s s3) by (eapply steps_snoc; [exact S2|apply A_emit; reflexivity]).
+          assert (E3 : psi s3 = psi s2) by reflexivity.
+          destruct (IH' _ _ _ _ S3 H) as [S' P']. split; [exact S'|].
+          intros OK. destruct (P' OK) as (-> & Hp). split; [reflexivity|lia].
+        * inversion H; subst. split; [eapply steps_snoc; [exact S2|apply A_emit; reflexivity]|vac].
+        * specialize (P2 (or_intror eq_refl)). cbn in P2.
+          set (s3 := emit _ s2) in H.
+          assert (S3 : steps s s3) by (eapply steps_snoc; [exact S2|apply A_emit; reflexivity]).
+          assert (E3 : psi s3 = psi s2) by reflexivity.
           pose proof (newsig_enq_steps s3 exception_spec (LK _ S3)) as S4.
-          destruct (new_signal s3 exception_spec) as [xs s4]. cbn [fst snd] in S4.
-          eapply IH'; [|exact H]. eapply steps_trans; eauto.
-        * inversion H; subst. eapply steps_snoc; [exact S2|apply A_emit; reflexivity].
-        * inversion H; subst. exact S2.
-        * inversion H; subst. exact S2.
+          assert (E4 : psi (do_enqueue (snd (new_signal s3 exception_spec)) (fst (new_signal s3 exception_spec))) = psi s3)
+            by (apply psi_core; rewrite pcore_do_enqueue; apply pcore_new_signal).
+          destruct (new_signal s3 exception_spec) as [xs s4]. cbn [fst snd] in S4, E4.
+          destruct (IH' _ _ _ _ (steps_trans _ _ _ S3 S4) H) as [S' P']. split; [exact S'|].
+          intros OK. destruct (P' OK) as (-> & Hp). split; [reflexivity|lia].
+        * inversion H; subst. split; [eapply steps_snoc; [exact S2|apply A_emit; reflexivity]|vac].
+        * inversion H; subst. split; [exact S2|vac].
+        * inversion H; subst. split; [exact S2|vac].
       + destruct (sg_cls sg =? CLS_EXCEPTION)%nat; inversion H; subst;
-          (eapply steps_snoc; [exact S0|apply A_emit; reflexivity]).
+          (split; [eapply steps_snoc; [exact S0|apply A_emit; reflexivity]|]); [vac|].
+        intros _. split; [reflexivity|]. change (psi (emit (EDispatchEnd (sg_id sg)) s0)) with (psi s0). lia.
     - (* CApi *)
       destruct c.
       + (* AEnqueue *)
         pose proof (newsig_enq_steps s sp L) as S1.
-        destruct (new_signal s sp) as [sg s1]. cbn [fst snd] in S1. inversion H; subst. exact S1.
-      + inversion H; subst. apply steps_one, A_forcequit.
+        assert (E1 : psi (do_enqueue (snd (new_signal s sp)) (fst (new_signal s sp))) = psi s)
+          by (apply psi_core; rewrite pcore_do_enqueue; apply pcore_new_signal).
+        destruct (new_signal s sp) as [sg s1]. cbn [fst snd] in S1, E1. inversion H; subst.
+        split; [exact S1|]. intros _. cbn. lia.
+      + inversion H; subst. split; [apply steps_one, A_forcequit|]. intros _. cbn. unfold psi at 1. st_simpl. lia.
       + (* ANewLoop *)
         destruct (link_new_signal s sp L) as (L1 & R & F).
         pose proof (A_newsig s sp) as A1.
+        pose proof (pcore_new_signal s sp) as PC1.
         destruct (new_signal s sp) as [sg s1]. cbn [fst snd] in *.
         assert (S1 : steps s s1) by (apply steps_one, A1).
-        destruct (force_quit s1) eqn:FQ; [inversion H; subst; exact S1|].
-        set (s2e := emit (ENewLoopEnter _) _) in H.
+        assert (Ep1 : psi s1 = psi s) by (apply psi_core, PC1).
+        destruct (force_quit s1) eqn:FQ; [inversion H; subst; split; [exact S1|intros _; cbn; lia]|].
+        set (q := length (qstore s1)) in *.
+        set (s2e := emit (ENewLoopEnter q) _) in H.
         assert (S2 : steps s s2e) by (eapply steps_snoc; [exact S1|apply A_newlevel, FQ]).
         assert (S3 : steps s (do_enqueue s2e sg)).
         { eapply steps_snoc; [exact S2|]. apply A_enq.
           - apply sig_rec_emit; [reflexivity|]. exact R.
-          - intros q e. unfold s2e. st_simpl. unfold gq. rewrite nth_snoc_default. apply F. }
+          - intros q0 e. unfold s2e. st_simpl. unfold gq. rewrite nth_snoc_default. apply F. }
+        assert (Ep3 : psi (do_enqueue s2e sg) = psi s2e) by (apply psi_core, pcore_do_enqueue).
+        assert (Ep2 : psi s2e = S (psi s1)).
+        { unfold psi, s2e. st_simpl. rewrite FQ, app_length. cbn [length]. lia. }
         destruct (exec code f CMainloop (do_enqueue s2e sg)) as [o1 s4] eqn:E1.
-        assert (S4 : steps s s4) by (eapply IH'; eauto).
-        destruct o1; inversion H; subst; try exact S4.
-        eapply steps_snoc; [exact S4|apply A_emit; reflexivity].
+        destruct (IH' _ _ _ _ S3 E1) as [S4 P4].
+        destruct o1; inversion H; subst; try (split; [exact S4|]; intros OK; destruct (P4 OK) as (X & _); discriminate X).
+        destruct (P4 (or_introl eq_refl)) as (_ & D).
+        assert (L4 : link s4) by (apply LK, S4).
+        assert (R24 : Rel s2e s4).
+        { apply steps_rel; [apply LK, S2|].
+          eapply steps_trans; [apply steps_one, A_enq|].
+          - apply sig_rec_emit; [reflexivity|]. exact R.
+          - intros q0 e. unfold s2e. st_simpl. unfold gq. rewrite nth_snoc_default. apply F.
+          - destruct (IH _ _ _ _ (LK _ S3) E1) as [X _]. exact X. }
+        split.
+        * eapply steps_snoc; [exact S4|]. apply A_newloopret.
+          -- intros F4. destruct D as [D|(D & _)]; [congruence|exact D].
+          -- apply (newloop_return_ok s1 s4 L1 FQ R24 L4). rewrite Ep3 in D. exact D.
+        * intros _. cbn. change (psi (emit (ENewLoopReturn q) s4)) with (psi s4).
+          destruct D as [D|(D1 & D2)]; [unfold psi; rewrite D; lia|].
+          unfold psi at 1. rewrite D1. destruct (force_quit s4); lia.
       + (* ACloseLoop *)
         set (s0 := emit _ s) in H.
         assert (S0 : steps s s0) by (apply steps_one, A_emit; reflexivity).
+        assert (E0 : psi s0 = psi s) by reflexivity.
         destruct (exec code f (CProcIter None) s0) as [o1 s1] eqn:E1.
-        assert (S1 : steps s s1) by (eapply IH'; eauto).
-        destruct o1; [|inversion H; subst; exact S1..].
+        destruct (IH' _ _ _ _ S0 E1) as [S1 P1].
+        destruct o1; [|inversion H; subst; (split; [exact S1|]);
+                       try vac; intros OK; destruct (P1 OK) as (X & _); discriminate X..].
+        destruct (P1 (or_introl eq_refl)) as (_ & Hp1).
         set (s2 := emit (EProcReturn None 0) s1) in H.
         assert (S2 : steps s s2) by (eapply steps_snoc; [exact S1|apply A_emit; reflexivity]).
-        destruct (rev (levels s2)) as [|top rest_rev] eqn:R; [inversion H; subst; exact S2|].
+        assert (E2 : psi s2 = psi s1) by reflexivity.
+        destruct (rev (levels s2)) as [|top rest_rev] eqn:R; [inversion H; subst; split; [exact S2|intros _; cbn; lia]|].
         pose proof (A_closepop s2 top rest_rev R) as A.
-        destruct rest_rev as [|q r]; inversion H; subst; (eapply steps_snoc; [exact S2|exact A]).
+        assert (Elv : levels s2 = rev rest_rev ++ [top]) by (rewrite <- (rev_involutive (levels s2)), R; reflexivity).
+        destruct rest_rev as [|q r]; inversion H; subst; (split; [eapply steps_snoc; [exact S2|exact A]|]); [vac|].
+        intros _. cbn. unfold psi at 1. st_simpl.
+        destruct (force_quit s2) eqn:F2.
+        * lia.
+        * assert (psi s2 >= length (levels s2)) by (unfold psi; rewrite F2; lia).
+          rewrite Elv, app_length in H0. cbn [length] in H0. cbn [rev] in H0. lia.
       + (* AProcess *)
         destruct return_after as [cls|].
         * destruct (take_ticket (tickets s) cls) as [t tm].
@@ -1015,41 +1331,78 @@ Section Exec.
           assert (S1 : steps s s1).
           { eapply steps_trans; [apply (irrel_step s (s <| tickets := tm |>)); [repeat split|reflexivity]|].
             apply steps_one, A_emit; reflexivity. }
+          assert (E1' : psi s1 = psi s) by reflexivity.
           destruct (exec code f (CProcWait cls t) s1) as [o1 s2] eqn:E1.
-          assert (S2 : steps s s2) by (eapply IH'; eauto).
-          destruct o1; inversion H; subst; try exact S2.
-          eapply steps_snoc; [exact S2|apply A_emit; reflexivity].
+          destruct (IH' _ _ _ _ S1 E1) as [S2 P2].
+          destruct o1; inversion H; subst.
+          -- split; [eapply steps_snoc; [exact S2|apply A_emit; reflexivity]|].
+             intros OK. specialize (P2 OK). cbn in P2. cbn.
+             change (psi (emit (EProcReturn (Some cls) t) s2)) with (psi s2). lia.
+          -- split; [exact S2|]. intros OK. specialize (P2 OK). cbn in P2. cbn. lia.
+          -- split; [exact S2|vac].
+          -- split; [exact S2|vac].
         * set (s0 := emit _ s) in H.
           assert (S0 : steps s s0) by (apply steps_one, A_emit; reflexivity).
+          assert (E0 : psi s0 = psi s) by reflexivity.
           destruct (exec code f (CProcIter None) s0) as [o1 s1] eqn:E1.
-          assert (S1 : steps s s1) by (eapply IH'; eauto).
-          destruct o1; inversion H; subst; try exact S1.
-          eapply steps_snoc; [exact S1|apply A_emit; reflexivity].
-      + inversion H; subst. apply steps_one, A_regsource.
-      + inversion H; subst. apply steps_one, A_reghandler.
-      + inversion H; subst. apply steps_one, A_setquit.
-      + inversion H; subst. apply irrel_step; [repeat split|reflexivity].
+          destruct (IH' _ _ _ _ S0 E1) as [S1 P1].
+          destruct o1; inversion H; subst.
+          -- split; [eapply steps_snoc; [exact S1|apply A_emit; reflexivity]|].
+             intros OK. destruct (P1 OK) as (_ & Hp). cbn.
+             change (psi (emit (EProcReturn None 0) s1)) with (psi s1). lia.
+          -- split; [exact S1|]. intros OK. destruct (P1 OK) as (X & _). discriminate X.
+          -- split; [exact S1|vac].
+          -- split; [exact S1|vac].
+      + inversion H; subst. split; [apply steps_one, A_regsource|intros _; cbn; apply le_n].
+      + inversion H; subst. split; [apply steps_one, A_reghandler|intros _; cbn; apply le_n].
+      + inversion H; subst. split; [apply steps_one, A_setquit|intros _; cbn; apply le_n].
+      + inversion H; subst. split; [apply irrel_step; [repeat split|reflexivity]|intros _; cbn; apply le_n].
     - (* CProg *)
       destruct p.
-      + inversion H; subst; apply steps_refl.
-      + inversion H; subst; apply steps_refl.
+      + inversion H; subst; split; [apply steps_refl|intros _; cbn; apply le_n].
+      + inversion H; subst; split; [apply steps_refl|intros _; cbn; apply le_n].
       + destruct (exec code f (CProg p1) s) as [o1 s1] eqn:E1.
-        assert (S1 : steps s s1) by (eapply IH'; [apply steps_refl|eauto]).
-        destruct o1; [eapply IH'; eauto|..]; inversion H; subst; exact S1.
+        destruct (IH' _ _ _ _ (steps_refl s) E1) as [S1 P1].
+        destruct o1.
+        * specialize (P1 (or_introl eq_refl)). cbn in P1.
+          destruct (IH' _ _ _ _ S1 H) as [S' P']. split; [exact S'|].
+          intros OK. specialize (P' OK). cbn in P'. cbn. lia.
+        * inversion H; subst. split; [exact S1|]. intros OK. specialize (P1 OK). cbn in P1. cbn. lia.
+        * inversion H; subst. split; [exact S1|vac].
+        * inversion H; subst. split; [exact S1|vac].
       + destruct (exec code f (CProg p1) s) as [o1 s1] eqn:E1.
-        assert (S1 : steps s s1) by (eapply IH'; [apply steps_refl|eauto]).
-        destruct o1 as [|[| |]| |]; try (inversion H; subst; exact S1).
-        eapply IH'; eauto.
-      + eapply IH'; [apply steps_refl|exact H].
+        destruct (IH' _ _ _ _ (steps_refl s) E1) as [S1 P1].
+        destruct o1 as [|[| |]| |].
+        * inversion H; subst. split; [exact S1|]. intros OK. specialize (P1 OK). cbn in P1. cbn. lia.
+        * inversion H; subst. split; [exact S1|vac].
+        * specialize (P1 (or_intror eq_refl)). cbn in P1.
+          destruct (IH' _ _ _ _ S1 H) as [S' P']. split; [exact S'|].
+          intros OK. specialize (P' OK). cbn in P'. cbn. lia.
+        * inversion H; subst. split; [exact S1|vac].
+        * inversion H; subst. split; [exact S1|vac].
+        * inversion H; subst. split; [exact S1|vac].
+      + destruct (IH' _ _ _ _ (steps_refl s) H) as [S' P']. split; [exact S'|].
+        intros OK. specialize (P' OK). cbn. destruct c; exact P'.
       + destruct (f0 (ust s)) as [u' p'].
-        eapply IH'; [|exact H]. apply irrel_step; [repeat split|reflexivity].
-      + destruct (c (ust s)); [|inversion H; subst; apply steps_refl].
+        assert (S0 : steps s (s <| ust := u' |>)) by (apply irrel_step; [repeat split|reflexivity]).
+        destruct (IH' _ _ _ _ S0 H) as [S' P']. split; [exact S'|].
+        intros OK. specialize (P' OK). cbn in P'. cbn. change (psi (s <| ust := u' |>)) with (psi s) in P'. exact P'.
+      + destruct (c (ust s)); [|inversion H; subst; split; [apply steps_refl|intros _; cbn; apply le_n]].
         destruct (exec code f (CProg p) s) as [o1 s1] eqn:E1.
-        assert (S1 : steps s s1) by (eapply IH'; [apply steps_refl|eauto]).
-        destruct o1; [eapply IH'; eauto|..]; inversion H; subst; exact S1.
-      + inversion H; subst. apply steps_one, A_emit.
+        destruct (IH' _ _ _ _ (steps_refl s) E1) as [S1 P1].
+        destruct o1.
+        * specialize (P1 (or_introl eq_refl)). cbn in P1.
+          destruct (IH' _ _ _ _ S1 H) as [S' P']. split; [exact S'|].
+          intros OK. specialize (P' OK). cbn in P'. cbn. lia.
+        * inversion H; subst. split; [exact S1|]. intros OK. specialize (P1 OK). cbn in P1. cbn. lia.
+        * inversion H; subst. split; [exact S1|vac].
+        * inversion H; subst. split; [exact S1|vac].
+      + inversion H; subst. split; [|intros _; cbn; apply le_n]. apply steps_one, A_emit.
         destruct e; reflexivity.
   Qed.
+
+  Theorem exec_steps : forall fuel c s o s', link s -> exec code fuel c s = (o, s') -> steps s s'.
+  Proof. intros fuel c s o s' L H. apply (exec_spec fuel c s o s' L H). Qed.
 End Exec.
 
 (* ---- monitors along a growing trace ---- *)
@@ -1104,12 +1457,12 @@ Section Top.
     forall sid v, lookup sid (w_sig (W s)) = Some v -> lookup sid (w_sig (W s')) = Some v.
 
   Lemma link_sig_lt s sid v : link s -> lookup sid (w_sig (W s)) = Some v -> sid < next_sig s.
-  Proof. intros L. unfold link, linkw in L. apply (lk_sig_lt _ _ _ _ _ _ _ _ L). Qed.
+  Proof. intros L. unfold link, linkw in L. apply (lk_sig_lt _ _ _ _ _ _ _ _ _ L). Qed.
 
   Lemma astep_sig_mono s s' : link s -> astep s s' -> sig_mono s s'.
   Proof.
     intros L A sid v Hs.
-    destruct A as [s s' C T|s e P|s sp|s sg R F|s p c sg q' P|s p c sg q' P|s|s|s FQ|s top rest_rev R|s o|s cls hid data|s arg].
+    destruct A as [s s' C T|s e P|s sp|s sg R F|s p c sg q' P|s p c sg q' P|s|s|s FQ|s top rest_rev R|s o|s cls hid data|s arg|s|s q H1 H2].
     - rewrite (W_trace _ _ T). exact Hs.
     - rewrite W_emit. destruct (world_step_passive (W s) e (plain_passive _ P)) as (-> & _). exact Hs.
     - unfold new_signal. cbn [snd]. rewrite W_emit.
@@ -1129,6 +1482,8 @@ Section Top.
         rewrite W_emit, w_sig_step by reflexivity. exact Hs.
     - rewrite W_emit, w_sig_step by reflexivity. exact Hs.
     - rewrite W_emit, w_sig_step by reflexivity. exact Hs.
+    - rewrite W_emit, w_sig_step by reflexivity. exact Hs.
+    - exact Hs.
     - rewrite W_emit, w_sig_step by reflexivity. exact Hs.
   Qed.
 
@@ -1153,10 +1508,41 @@ Section Top.
     sig_rec (W s) sg /\ p = sg_prio sg /\ pend (W s) q = (p, sg_id sg) :: abs q'.
   Proof.
     intros L P. unfold link, linkw in L. rewrite get_q_gq in P.
-    destruct (linkc_pop_in _ _ _ _ _ _ _ _ _ _ _ L P) as (Im & _ & Hp).
-    split; [apply (lk_sig _ _ _ _ _ _ _ _ L _ _ Im)|split; [|exact Hp]].
-    pose proof (qwf_prio _ (lk_qwf _ _ _ _ _ _ _ _ L q)) as Pr. rewrite Forall_forall in Pr. apply (Pr _ Im).
+    destruct (linkc_pop_in _ _ _ _ _ _ _ _ _ _ _ _ L P) as (Im & _ & Hp).
+    split; [apply (lk_sig _ _ _ _ _ _ _ _ _ L _ _ Im)|split; [|exact Hp]].
+    pose proof (qwf_prio _ (lk_qwf _ _ _ _ _ _ _ _ _ L q)) as Pr. rewrite Forall_forall in Pr. apply (Pr _ Im).
   Qed.
+
+  (* ---- the components of the link, on states ---- *)
+  Lemma link_levels s : link s -> w_levels (W s) = levels s.
+  Proof. intros L. unfold link, linkw in L. apply (lk_levels _ _ _ _ _ _ _ _ _ L). Qed.
+  Lemma link_active s : link s -> w_active (W s) = active s.
+  Proof. intros L. unfold link, linkw in L. apply (lk_active _ _ _ _ _ _ _ _ _ L). Qed.
+  Lemma link_fq s : link s -> w_fq (W s) = force_quit s.
+  Proof. intros L. unfold link, linkw in L. apply (lk_fq _ _ _ _ _ _ _ _ _ L). Qed.
+  Lemma link_quit s : link s -> w_quit (W s) = quit_cb s.
+  Proof. intros L. unfold link, linkw in L. apply (lk_quit _ _ _ _ _ _ _ _ _ L). Qed.
+  Lemma link_hand s cls : link s -> hand (W s) cls = handlers_of s cls.
+  Proof.
+    intros L. unfold link, linkw in L. unfold hand, handlers_of.
+    rewrite (lk_hand _ _ _ _ _ _ _ _ _ L). apply lookup_find.
+  Qed.
+  Lemma link_sources s q : link s -> sources (W s) q = eq_sources (get_q s q).
+  Proof. intros L. unfold link, linkw in L. apply (lk_src _ _ _ _ _ _ _ _ _ L). Qed.
+  Lemma link_pend s q : link s -> pend (W s) q = abs (get_q s q).
+  Proof. intros L. unfold link, linkw in L. apply (lk_pend _ _ _ _ _ _ _ _ _ L). Qed.
+  Lemma link_qwf s q : link s -> qwf (get_q s q).
+  Proof. intros L. unfold link, linkw in L. apply (lk_qwf _ _ _ _ _ _ _ _ _ L). Qed.
+  Lemma link_sig_rec s q e : link s -> In e (eq_entries (get_q s q)) -> sig_rec (W s) (esig e).
+  Proof. intros L. unfold link, linkw in L. apply (lk_sig _ _ _ _ _ _ _ _ _ L). Qed.
+  Lemma link_sid_uniq s q1 q2 e1 e2 : link s ->
+    In e1 (eq_entries (get_q s q1)) -> In e2 (eq_entries (get_q s q2)) ->
+    sg_id (esig e1) = sg_id (esig e2) -> q1 = q2 /\ e1 = e2.
+  Proof. intros L. unfold link, linkw in L. apply (lk_sid_uniq _ _ _ _ _ _ _ _ _ L). Qed.
+
+  (* what a call that comes back normally (or with an ordinary exception) has done to the stack of levels *)
+  Theorem exec_post : forall fuel c s o s', link s -> exec code fuel c s = (o, s') -> Post c s o s'.
+  Proof. intros fuel c s o s' L H. apply (exec_spec code fuel c s o s' L H). Qed.
 
   Lemma link_top s : link s -> link (emit ETop s).
   Proof. apply link_emit_passive. reflexivity. Qed.
